@@ -145,6 +145,12 @@ struct Cfg {
     /// leading / trailing blanks, the first characters of another checkpoint's id)
     #[serde(default)]
     near_names: bool,
+    /// engine capacity limits: the router is built (QueryRouter::with_engines) over a RelationalEngine with
+    /// RelationalConfig::with_max_tables(..).with_max_indexes_per_table(..)
+    #[serde(default)]
+    max_tables: Option<usize>,
+    #[serde(default)]
+    max_indexes: Option<usize>,
 }
 
 fn name_fold(n: &str) -> String {
@@ -483,7 +489,18 @@ fn names(ls: &[Listed], label_of: &HashMap<String, u32>) -> Vec<String> {
 
 impl Runner {
     fn new(cfg: &Cfg, trace: bool) -> Result<Runner, String> {
-        let mut router = if cfg.bloom {
+        let mut router = if let Some(mt) = cfg.max_tables {
+            let store = if cfg.bloom { tensor_store::TensorStore::with_bloom_filter(10_000, 0.01) } else { tensor_store::TensorStore::new() };
+            let mut rc = relational_engine::RelationalConfig::default().with_max_tables(mt);
+            if let Some(mi) = cfg.max_indexes {
+                rc = rc.with_max_indexes_per_table(mi);
+            }
+            QueryRouter::with_engines(
+                std::sync::Arc::new(relational_engine::RelationalEngine::with_store_and_config(store.clone(), rc)),
+                std::sync::Arc::new(graph_engine::GraphEngine::with_store(store.clone())),
+                std::sync::Arc::new(vector_engine::VectorEngine::with_store(store)),
+            )
+        } else if cfg.bloom {
             QueryRouter::with_shared_store(tensor_store::TensorStore::with_bloom_filter(10_000, 0.01))
         } else {
             QueryRouter::new()
@@ -1155,29 +1172,84 @@ impl Runner {
                 checked += 1;
             }
         }
-        // ---------- DDL
+        // ---------- DDL (with a table limit configured: as many new tables as the limit leaves room for,
+        // given the tables SHOW TABLES lists now - right after a rollback that is the restored content)
         {
-            let t = format!("bt{}", n);
-            let mk = format!("CREATE TABLE {} (a INT, b TEXT)", t);
-            match self.exec(&mk) {
-                Ok(_) => {
-                    let ins = format!("INSERT INTO {} (a, b) VALUES (1, 'x')", t);
-                    let r1 = self.exec(&ins);
-                    let ix = format!("CREATE INDEX ibt{} ON {} (a)", n, t);
-                    let r2 = self.exec(&ix);
-                    let got = self.rows(&format!("SELECT * FROM {} WHERE a = 1", t));
-                    let ok = matches!(r1, Ok(QueryResult::Ids(ref v)) if v.len() == 1) && r2.is_ok() && matches!(got, Ok(ref v) if v.len() == 1);
-                    if !ok {
-                        bad!("create-table", "new-table-not-usable", "`{}`; `{}` gave {}; `{}` gave {}; equality select gave {:?}", mk, ins, short(&canon(&r1)), ix, short(&canon(&r2)), got);
-                    }
-                    if !self.cfg.auto_cp {
-                        let dr = format!("DROP TABLE {}", t);
-                        if let Err(e) = self.exec(&dr) {
-                            bad!("drop-table", "failed", "`{}` failed: {}", dr, e);
+            let room = self.cfg.max_tables.map(|m| m.saturating_sub(tables.len()));
+            let how_many = match room {
+                None => 1,
+                Some(r) => r,
+            };
+            if room.is_some() {
+                count(&mut self.counters, "battery_runs_under_a_table_limit", 1);
+            }
+            let mut made: Vec<String> = Vec::new();
+            for j in 0..how_many {
+                let t = if j == 0 { format!("bt{}", n) } else { format!("bt{}x{}", n, j) };
+                let mk = format!("CREATE TABLE {} (a INT, b TEXT)", t);
+                match self.exec(&mk) {
+                    Ok(_) => {
+                        made.push(t.clone());
+                        if room.is_some() {
+                            count(&mut self.counters, "battery_tables_created_under_a_table_limit", 1);
+                        }
+                        if j > 0 {
+                            continue;
+                        }
+                        let ins = format!("INSERT INTO {} (a, b) VALUES (1, 'x')", t);
+                        let r1 = self.exec(&ins);
+                        let ix = format!("CREATE INDEX ibt{} ON {} (a)", n, t);
+                        let r2 = self.exec(&ix);
+                        // a fresh table has no index: a second one fits any limit >= 2
+                        let ix2 = format!("CREATE INDEX ibt{}b ON {} (b)", n, t);
+                        let r3 = if self.cfg.max_indexes.map_or(true, |m| m >= 2) { self.exec(&ix2) } else { Ok(QueryResult::Empty) };
+                        let got = self.rows(&format!("SELECT * FROM {} WHERE a = 1", t));
+                        let ok = matches!(r1, Ok(QueryResult::Ids(ref v)) if v.len() == 1) && r2.is_ok() && r3.is_ok() && matches!(got, Ok(ref v) if v.len() == 1);
+                        if !ok {
+                            bad!(
+                                "create-table",
+                                "new-table-not-usable",
+                                "`{}`; `{}` gave {}; `{}` gave {}; `{}` gave {}; equality select gave {:?} (max_indexes_per_table = {:?})",
+                                mk,
+                                ins,
+                                short(&canon(&r1)),
+                                ix,
+                                short(&canon(&r2)),
+                                ix2,
+                                short(&canon(&r3)),
+                                got,
+                                self.cfg.max_indexes
+                            );
                         }
                     }
+                    Err(e) => {
+                        if let (Some(m), true) = (self.cfg.max_tables, e.to_ascii_lowercase().contains("too many tables")) {
+                            bad!(
+                                "create-table",
+                                "refused-below-the-table-limit",
+                                "max_tables = {}; SHOW TABLES listed {} tables {:?}; {} battery tables were created since; yet `{}` failed: {}",
+                                m,
+                                tables.len(),
+                                tables,
+                                made.len(),
+                                mk,
+                                e
+                            );
+                        } else {
+                            bad!("create-table", "failed", "`{}` failed: {}", mk, e);
+                        }
+                        break;
+                    }
                 }
-                Err(e) => bad!("create-table", "failed", "`{}` failed: {}", mk, e),
+            }
+            // (DROP TABLE takes no automatic checkpoint; under a table limit the room is always given back)
+            if !self.cfg.auto_cp || room.is_some() {
+                for t in &made {
+                    let dr = format!("DROP TABLE {}", t);
+                    if let Err(e) = self.exec(&dr) {
+                        bad!("drop-table", "failed", "`{}` failed: {}", dr, e);
+                    }
+                }
             }
             checked += 1;
         }
@@ -1864,7 +1936,7 @@ fn cycle_cfg(rng: &mut Rng) -> Cfg {
     // with the query cache on, the entry points that bypass execute_parsed's own cache handling for the
     // checkpoint statements get a larger share
     let mode = if qcache { [0u8, 1, 2, 3, 4, 3, 4, 5][rng.below(8)] } else { [0u8, 0, 0, 1, 2, 3, 4, 5][rng.below(8)] };
-    Cfg {
+    let cfg = Cfg {
         auto_cp: rng.chance(1, 4),
         qcache,
         dim: if rng.chance(1, 6) { 384 } else { 4 },
@@ -1875,14 +1947,22 @@ fn cycle_cfg(rng: &mut Rng) -> Cfg {
         async_mode: mode,
         bloom: rng.chance(1, 4),
         near_names: rng.chance(1, 2),
+        max_tables: None,
+        max_indexes: None,
+    };
+    let mut cfg = cfg;
+    if rng.chance(1, 4) {
+        cfg.max_tables = Some(3 + rng.below(4));
+        cfg.max_indexes = Some(2 + rng.below(2));
     }
+    cfg
 }
 
 fn retention_cfg(rng: &mut Rng) -> Cfg {
     let auto_cp = rng.chance(3, 5);
     // an automatic checkpoint is only taken on the synchronous side (inside a tokio runtime the router skips it)
     let async_mode = if auto_cp { [0u8, 1, 3, 4, 5][rng.below(5)] } else { [0u8, 1, 2, 3, 4, 5][rng.below(6)] };
-    Cfg { auto_cp, qcache: false, dim: 4, max_cp: 1 + rng.below(3), strict_retention: true, hnsw: false, btree: false, async_mode, bloom: rng.chance(1, 4), near_names: rng.chance(1, 2) }
+    Cfg { auto_cp, qcache: false, dim: 4, max_cp: 1 + rng.below(3), strict_retention: true, hnsw: false, btree: false, async_mode, bloom: rng.chance(1, 4), near_names: rng.chance(1, 2), max_tables: None, max_indexes: None }
 }
 
 // ------------------------------------------------------------------------------------------------
@@ -1958,7 +2038,16 @@ fn script_text(items: &[Item]) -> String {
 fn cfg_text(cfg: &Cfg) -> String {
     format!(
         "router: {} + init_blob() + init_checkpoint_with_config(max_checkpoints={}, auto_checkpoint={}){}; {}",
-        if cfg.bloom { "QueryRouter::with_shared_store(TensorStore::with_bloom_filter(10_000, 0.01))" } else { "QueryRouter::new()" },
+        match (cfg.max_tables, cfg.bloom) {
+            (Some(mt), b) => format!(
+                "QueryRouter::with_engines(RelationalEngine::with_store_and_config(store, RelationalConfig::default().with_max_tables({}).with_max_indexes_per_table({})), GraphEngine::with_store(store), VectorEngine::with_store(store)) over {}",
+                mt,
+                cfg.max_indexes.unwrap_or(0),
+                if b { "TensorStore::with_bloom_filter(10_000, 0.01)" } else { "TensorStore::new()" }
+            ),
+            (None, true) => "QueryRouter::with_shared_store(TensorStore::with_bloom_filter(10_000, 0.01))".to_string(),
+            (None, false) => "QueryRouter::new()".to_string(),
+        },
         cfg.max_cp,
         cfg.auto_cp,
         if cfg.qcache { " + init_cache()" } else { "" },
@@ -2016,6 +2105,9 @@ fn report_outcome(part: &str, case_seed: u64, cfg: &Cfg, o: Outcome, report: &mu
     }
     if cfg.near_names {
         report.count("cases_with_near_duplicate_names", 1);
+    }
+    if cfg.max_tables.is_some() {
+        report.count("cases_with_capacity_limits", 1);
     }
     if cfg.dim == 384 {
         report.count("cases_with_384_dim_vectors", 1);
@@ -2139,6 +2231,7 @@ fn main() {
             "set-valued answers (rows, node/edge lists, neighbour ids, key lists) are compared as sets; SIMILAR answers on bit-exact scores and on keys except inside a score tie cut by LIMIT".into(),
             "checkpoint creation stamps have 1 s granularity: the retention oracle only judges creations >= 1.1 s apart; in all other programs max_checkpoints = 100 so retention never acts".into(),
             "an automatic checkpoint holds the database as it was right before its destructive statement; whether one is taken at all is not judged (best effort in the code, skipped inside a tokio runtime), only what is listed afterwards".into(),
+            "a quarter of the cycle cases run with RelationalConfig max_tables 3..6 and max_indexes_per_table 2..3; there the battery creates as many new tables as the limit leaves room for given what SHOW TABLES lists (each must succeed) and drops them again; statements of the random phases refused by a limit are not judged; max_btree_entries is left at its default because the harness keeps no model of distinct index keys".into(),
             "ROLLBACK TO by name is only issued when exactly one listed checkpoint carries exactly that name and no listed id equals it; otherwise the id is used".into(),
             "ROLLBACK TO is not a retention event: the set listed by CHECKPOINTS may not change across it".into(),
             "legacy-path SIMILAR answers recorded while a VectorEngine HNSW cache built by the harness was live are approximate and are not compared; a correct rollback is expected to invalidate that cache like every write path of VectorEngine does".into(),
@@ -2166,6 +2259,8 @@ fn main() {
                 ("rollbacks_to_auto_checkpoint", args.by_tier(5, 100)),
                 ("checkpoints_with_near_duplicate_name", args.by_tier(30, 600)),
                 ("rollbacks_by_near_duplicate_name", args.by_tier(15, 300)),
+                ("battery_runs_under_a_table_limit", args.by_tier(30, 600)),
+                ("battery_tables_created_under_a_table_limit", args.by_tier(40, 800)),
                 ("write_statements_ok", args.by_tier(1_000, 20_000)),
             ]
         },
